@@ -82,6 +82,41 @@ def load_findings():
         return {'known': [], 'fixed': []}
 
 
+def merge(total, r, nontrivial, outcomes):
+    total.evals += r.evals
+    nontrivial |= r.nontrivial
+    outcomes |= r.outcomes
+    total.violations.extend(r.violations)
+    total.states += r.states
+    total.transitions += r.transitions
+    total.capped = total.capped or r.capped
+    for s in r.samples:
+        if len(total.samples) < 6:
+            total.samples.append(s)
+    for k, v in r.extra.items():
+        if isinstance(v, (int, float)) and not isinstance(v, bool):
+            total.extra[k] = total.extra.get(k, 0) + v
+        else:
+            total.extra.setdefault(k, v)
+
+
+def make_pool(n=None):
+    ctx = multiprocessing.get_context('fork')
+    return ctx.Pool(n or NPROC)
+
+
+def pmap(pool, fn, items, chunksize=1):
+    """unordered parallel map with per-item wall-clock guard; raises on a failed item"""
+    if pool is None:
+        it = map(_call, [(fn, x) for x in items])
+    else:
+        it = pool.imap_unordered(_call, [(fn, x) for x in items], chunksize=chunksize)
+    for status, r in it:
+        if status == 'err':
+            raise RuntimeError(r)
+        yield r
+
+
 def run_check(prop, tier, seed, level, items, worker, rule, assumptions, technique_note='',
               exhaustive=True, bounds=None, mc=False, serial=False):
     """items: list of picklable work items; worker(item) -> Acc.  Returns the exit code."""
@@ -93,8 +128,7 @@ def run_check(prop, tier, seed, level, items, worker, rule, assumptions, techniq
         results = map(_call, [(worker, it) for it in items])
         pool = None
     else:
-        ctx = multiprocessing.get_context('fork')
-        pool = ctx.Pool(min(NPROC, len(items)))
+        pool = make_pool(min(NPROC, len(items)))
         results = pool.imap_unordered(_call, [(worker, it) for it in items], chunksize=1)
     nontrivial = set()
     outcomes = set()
@@ -102,21 +136,7 @@ def run_check(prop, tier, seed, level, items, worker, rule, assumptions, techniq
         if status == 'err':
             errors.append(r)
             continue
-        total.evals += r.evals
-        nontrivial |= r.nontrivial
-        outcomes |= r.outcomes
-        total.violations.extend(r.violations)
-        total.states += r.states
-        total.transitions += r.transitions
-        total.capped = total.capped or r.capped
-        for s in r.samples:
-            if len(total.samples) < 6:
-                total.samples.append(s)
-        for k, v in r.extra.items():
-            if isinstance(v, (int, float)):
-                total.extra[k] = total.extra.get(k, 0) + v
-            else:
-                total.extra.setdefault(k, v)
+        merge(total, r, nontrivial, outcomes)
     if pool is not None:
         pool.close()
         pool.join()
@@ -124,7 +144,12 @@ def run_check(prop, tier, seed, level, items, worker, rule, assumptions, techniq
     if errors:
         sys.stdout.write("HARNESS-ERROR property=%s (%d work items failed)\n%s\n" % (prop, len(errors), errors[0]))
         return 2
+    return report(prop, tier, seed, level, total, nontrivial, outcomes, rule, assumptions, t0,
+                  exhaustive=exhaustive, bounds=bounds, mc=mc, nitems=len(items))
 
+
+def report(prop, tier, seed, level, total, nontrivial, outcomes, rule, assumptions, t0,
+           exhaustive=True, bounds=None, mc=False, nitems=0):
     # ---- classify violations
     fnd = load_findings()
     known = [k for k in fnd.get('known', []) if k.get('property') == prop]
@@ -173,7 +198,7 @@ def run_check(prop, tier, seed, level, items, worker, rule, assumptions, techniq
         'rule': rule,
         'samples': total.samples or [{'note': 'no sample recorded'}],
         'exhaustive': bool(exhaustive and not total.capped),
-        'work_items': len(items),
+        'work_items': nitems,
     }
     if bounds:
         cov['bounds'] = bounds
